@@ -52,7 +52,8 @@ def cases(draw):
     destkind = draw(st.sampled_from(["newfile", "multi", "multi", "plain"]))
     neigh = draw(st.lists(st.sampled_from(["/", "/a", "/g/b"]), min_size=1, max_size=3, unique=True)) if destkind != "newfile" else []
     dest = draw(st.sampled_from(["/", "/grp"])) if destkind == "newfile" else \
-        (draw(st.sampled_from(["/new", "/g/new"])) if destkind == "multi" else draw(st.sampled_from(["/plain", "/g/plain"])))
+        (draw(st.sampled_from(["/new", "/g/new"] + ([] if "/" in neigh else ["/", "/"]))) if destkind == "multi"
+         else draw(st.sampled_from(["/plain", "/g/plain"])))
     nrows = draw(gen.pixels(n, symmetric, count=st.integers(1, 9), max_nnz=6))
     return {"part": "faults", "bt": bt, "symmetric": symmetric, "chunks": chunks, "producer": producer,
             "destkind": destkind, "neighbours": sorted(neigh), "dest": dest, "neighbour_rows": nrows,
@@ -395,7 +396,7 @@ def check_faults(case, ctx: Ctx):
         setup.close()
     for k_, v in cls.items():
         ctx.classes["fault-" + k_] += v
-    ctx.record(case, n_nt > 0, ["faults", "producer=" + case["producer"], "dest=" + case["destkind"],
+    ctx.record(case, n_nt > 0, ["faults", "producer=" + case["producer"], "dest=" + case["destkind"], "dest-is-root-beside-neighbours" if case["dest"] == "/" and case["neighbours"] else "dest-other",
                                 f"neighbours={len(case['neighbours'])}", f"chunks={len(case['chunks'])}"],
                n_eval=n_eval, n_nontrivial=n_nt)
 
